@@ -394,6 +394,12 @@ func (s *Sim) execTL(ev *TLEvent) {
 		if sv != nil {
 			sv.StickyIOErr, sv.StickySQLErr = 0, 0
 		}
+	case "lock_session": // N application sessions take locks that block SET GLOBAL read_only until killed
+		if sv != nil && sv.Up {
+			for i := int64(0); i < ev.N; i++ {
+				sv.Blockers = append(sv.Blockers, 9000+len(sv.Blockers))
+			}
+		}
 	case "lag": // scripted replication lag in seconds (custom replication_lag query); N<0 = NULL/unknown
 		if sv != nil {
 			sv.LagNull = ev.N == -2
